@@ -94,7 +94,8 @@ def cases(rng, tier):
         yield Case(lines, {"kind": "same-object-" + order})
     # out-of-range pH values on their own (small blocks: positional and keyword, int and float)
     for sq in ("KDG", "GSEDEEGSDKGSEEDYGS"):
-        for bad in ("-1/100", "-1", "1401/100", "15", "141/10", "-5/1", "20/1", "1000/1"):
+        for bad in ("-1/100", "-1", "1401/100", "15", "141/10", "-5/1", "20/1", "1000/1", "-1/10000000000000000", "-1/" + "1" + "0" * 300,
+                    "14000000001/1000000000"):
             yield Case(["q phq %s %s %s" % (sq, g_, bad) for g_ in ("ncpr", "fcr", "fer", "mnc")], {"kind": "pH-out-of-range", "meta": [("bad", None)] * 4, "seq": sq})
     # chains of more than 10000 residues whose titratable residues are a minority
     for unit, reps in (("G" * 59 + "K", 171), ("GSGSQNGSPAGS" * 5 + "D", 165), ("SG" * 30 + "H", 165))[:1 if tier == "quick" else 3]:
